@@ -20,7 +20,11 @@ Lemma pin_codegen_do_codegen : src_codegen_do_codegen = "def do_codegen(codegen,
         funcname = f'{_identifier(codegen.__name__)}_' + '_x_'.join((f'{mv.type_number}' for mv in mvs))
         args = {arg_name: arg.values() for arg_name, arg in zip(string.ascii_uppercase, mvs)}
         dependencies = None
-    res = {bin: res[bin] if isinstance(res, dict) else getattr(res, canon) for canon, bin in algebra.canon2bin.items() if bin in res.keys()}
+    keys_out = res.keys()
+    if algebra.graded and keys_out:
+        grades = tuple(sorted({format(k, 'b').count('1') for k in keys_out}))
+        keys_out = algebra.indices_for_grades[grades]
+    res = {bin: (res[bin] if isinstance(res, dict) else getattr(res, canon)) if bin in res.keys() else 0 for canon, bin in algebra.canon2bin.items() if bin in keys_out}
     if not algebra.cse and any((isinstance(v, str) for v in res.values())):
         return func_builder(res, *mvs, funcname=funcname)
     keys, exprs = (tuple(res.keys()), list(res.values()))
